@@ -119,6 +119,9 @@ def gen_one(rng, small):
         else:
             framing_orig = (b"transfer-encoding", rng.choice([b"chunked", b"Chunked"]))
         orig.insert(rng.randrange(0, len(orig) + 1), framing_orig)
+        if framing_orig[0] == b"transfer-encoding" and rng.random() < 0.3:
+            # another Transfer-Encoding field ahead of the one that says chunked: the request is chunked all the same, nothing is added
+            orig.insert(0, (b"transfer-encoding", b"gzip"))
     orig = group_headers(orig)
     ops = []
     args = request_args(method, version, "http", auth, pq, orig)
@@ -149,7 +152,9 @@ def gen_one(rng, small):
                 ops.append("write_body x #100")
             ops.append("proceed")
         loc = rng.choice([b"/hop%d" % hop, b"/r/%d?x=y" % hop, b"http://b.test/other%d" % hop])
-        resp = render_response_head("1.1", 302, b"Found", [(b"Location", loc), (b"Content-Length", b"0")])
+        # every followed status: 307/308 keep the method (only offered when the method may be kept), the others turn all but HEAD into GET
+        status = rng.choice([301, 302, 303, 302] + ([307, 308, 307] if cur_method in ("GET", "HEAD", "OPTIONS", "TRACE", "CONNECT") else []))
+        resp = render_response_head("1.1", status, b"Found", [(b"Location", loc), (b"Content-Length", b"0")])
         ops += ["raw_try_response %s" % hx(resp), "proceed", "as_new_flow never", "follow"]
         if loc.startswith(b"http://"):
             cur_host = b"b.test"
@@ -157,7 +162,7 @@ def gen_one(rng, small):
         else:
             cur_pq = loc
             cur_host = cur_host.lower()  # the url crate lower-cases the host when it resolves the Location
-        if cur_method not in ("GET", "HEAD"):
+        if status not in (307, 308) and cur_method not in ("GET", "HEAD"):
             cur_method = "GET"
         despite = False if hop == 0 else despite
     if depth > 0:
